@@ -2,7 +2,9 @@ package props
 
 import (
 	"fmt"
+	"hash/fnv"
 	"reflect"
+	"strings"
 
 	"github.com/AsaiYusuke/jsonpath"
 	"pgregory.net/rapid"
@@ -27,7 +29,11 @@ func drawPathDoc(rt *rapid.T, o gen.PathOpts, style bool) *Case {
 		r = gen.Render(p, gen.Canon)
 	}
 	d := g.Doc(p)
-	return &Case{Path: r.Text, AST: p, Texts: r.Steps, Doc: d, DocKind: g.DocKind, UseNumber: rapid.Bool().Draw(rt, "usenumber"), Funcs: o.Funcs}
+	c := &Case{Path: r.Text, AST: p, Texts: r.Steps, Doc: d, DocKind: g.DocKind, UseNumber: rapid.Bool().Draw(rt, "usenumber"), Funcs: o.Funcs}
+	if gen.Uniform(rt, "twin", 4) == 0 {
+		c.Twin = gen.TwinText(rt, r.Text)
+	}
+	return c
 }
 
 // poisonPaths are rejected by Parse at different grammar actions, several of them after nodes
@@ -39,13 +45,22 @@ var poisonPaths = []string{
 }
 
 func drawC01(rt *rapid.T) *Case {
-	c := drawPathDoc(rt, gen.PathOpts{Funcs: true, RootOmit: true, FuncPct: 22, ReuseFuncs: true}, true)
+	c := drawPathDoc(rt, gen.PathOpts{Funcs: true, RootOmit: true, FuncPct: 22, ReuseFuncs: true, LongPaths: true}, true)
 	if gen.Uniform(rt, "poison", 6) == 0 {
 		c.Strs = []string{poisonPaths[gen.Uniform(rt, "poisonpath", len(poisonPaths))]}
 	}
 	if gen.Uniform(rt, "shared", 7) == 0 {
 		// a document in which one container is reachable by two paths (a DAG, not a tree)
 		c.Ints = []int{1 + int(rapid.Uint32().Draw(rt, "shareseed"))}
+	} else if gen.Uniform(rt, "edit", 5) == 0 {
+		// a second content for the same document object: the caller edits its document in place
+		// after the first evaluation and evaluates again
+		g := gen.NewG(rt, gen.PathOpts{})
+		if gen.Uniform(rt, "editkind", 2) == 0 {
+			c.Docs = []*gen.DNode{g.Perturb(c.Doc)}
+		} else {
+			c.Docs = []*gen.DNode{g.Doc(c.AST)}
+		}
 	}
 	return c
 }
@@ -56,24 +71,140 @@ type retrieveResult struct {
 	got      []interface{}
 	err      error
 	rec      *Recorder
+	// again evaluates the same path once more the way the case reached the library: the same
+	// parsed function (Parse) or another Retrieve of the same text
+	again func(doc interface{}) ([]interface{}, error)
+}
+
+// apiShape says how a case reaches the library. It is a pure function of the path text (so a
+// replay takes the same route): Parse and a call of the returned function, or Retrieve; with the
+// Config of the case, or - when the path uses no function and accessor mode is off, so that the
+// Config cannot matter - with no Config argument at all.
+type apiShape struct {
+	retrieve bool
+	bare     bool
+}
+
+func pickAPI(path string, accessor bool) apiShape {
+	h := fnv.New32a()
+	h.Write([]byte(path))
+	v := (h.Sum32() >> 7) % 8
+	a := apiShape{retrieve: v&1 == 1}
+	if !accessor && !strings.Contains(path, "()") && v&6 == 2 {
+		a.bare = true
+	}
+	return a
+}
+
+func (a apiShape) String() string {
+	s := "Parse"
+	if a.retrieve {
+		s = "Retrieve"
+	}
+	if a.bare {
+		return s + "(no Config)"
+	}
+	return s + "(Config)"
 }
 
 func evalLibrary(c *Case, doc interface{}, accessor bool) retrieveResult {
 	rec := &Recorder{}
 	// the order in which the Config is put together varies with the case (a pure function of the path)
 	cfg := BuildConfigOrder(rec, c.Funcs, accessor, len(c.Path)%2 == 1)
-	noteParse(c.Path, c.Funcs, accessor)
-	f, err := jsonpath.Parse(c.Path, cfg)
+	api := pickAPI(c.Path, accessor)
+	if c.Twin != "" {
+		// a path that differs from the case's own by one character (a blank dropped or added, a
+		// letter's case, one character more or less) goes through the same entry point first:
+		// whatever the library remembers about it must not answer for the case's path
+		noteParseVia(c.Twin, c.Funcs && !api.bare, accessor && !api.bare, api.retrieve)
+		switch {
+		case api.retrieve && api.bare:
+			_, _ = jsonpath.Retrieve(c.Twin, doc)
+		case api.retrieve:
+			_, _ = jsonpath.Retrieve(c.Twin, doc, cfg)
+		case api.bare:
+			_, _ = jsonpath.Parse(c.Twin)
+		default:
+			_, _ = jsonpath.Parse(c.Twin, cfg)
+		}
+		rec.Calls, rec.Errs = nil, 0
+	}
+	noteParseVia(c.Path, c.Funcs && !api.bare, accessor && !api.bare, api.retrieve)
+	reenterDoc := gen.MustDecode(tinyDoc, false)
+	if api.retrieve {
+		// the filter function "fre" re-enters the library while the outer call is in progress
+		// (calls made inside are not logged); here through Retrieve, which parses again
+		rec.Reenter = func() {
+			if api.bare {
+				_, _ = jsonpath.Retrieve(c.Path, reenterDoc)
+			} else {
+				_, _ = jsonpath.Retrieve(c.Path, reenterDoc, cfg)
+			}
+		}
+		var got []interface{}
+		var err error
+		if api.bare {
+			got, err = jsonpath.Retrieve(c.Path, doc)
+		} else {
+			got, err = jsonpath.Retrieve(c.Path, doc, cfg)
+		}
+		rec.Reenter = nil
+		if err != nil && !DescribeErr(err).IsRuntime() {
+			// Retrieve reports a rejected path and a failed evaluation through the same return value
+			return retrieveResult{parseErr: err, rec: rec}
+		}
+		again := func(d interface{}) ([]interface{}, error) {
+			if api.bare {
+				return jsonpath.Retrieve(c.Path, d)
+			}
+			return jsonpath.Retrieve(c.Path, d, cfg)
+		}
+		return retrieveResult{got: got, err: err, rec: rec, again: again}
+	}
+	var f func(interface{}) ([]interface{}, error)
+	var err error
+	if api.bare {
+		f, err = jsonpath.Parse(c.Path)
+	} else {
+		f, err = jsonpath.Parse(c.Path, cfg)
+	}
 	if err != nil {
 		return retrieveResult{parseErr: err, rec: rec}
 	}
 	// the filter function "fre" re-enters the library: it calls this same parsed function on a
 	// small fixed document while the outer call is in progress (calls made inside are not logged)
-	reenterDoc := gen.MustDecode(tinyDoc, false)
 	rec.Reenter = func() { _, _ = f(reenterDoc) }
 	got, err := f(doc)
 	rec.Reenter = nil
-	return retrieveResult{got: got, err: err, rec: rec}
+	return retrieveResult{got: got, err: err, rec: rec, again: f}
+}
+
+// transplantInPlace makes the live document dst deep-equal to src while dst's root container
+// keeps its identity (the same map, or the same slice of the same length): what a caller does
+// who updates a document it holds and evaluates again. It reports whether that was possible.
+func transplantInPlace(dst, src interface{}) bool {
+	switch d := dst.(type) {
+	case map[string]interface{}:
+		s, ok := src.(map[string]interface{})
+		if !ok {
+			return false
+		}
+		for k := range d {
+			delete(d, k)
+		}
+		for k, v := range s {
+			d[k] = v
+		}
+		return true
+	case []interface{}:
+		s, ok := src.([]interface{})
+		if !ok || len(s) != len(d) || len(d) == 0 {
+			return false
+		}
+		copy(d, s)
+		return true
+	}
+	return false
 }
 
 func flagString(c *Case) string {
@@ -88,6 +219,15 @@ func classifyPath(st *Stats, p *gen.Path) {
 		st.Class("step:" + tag)
 		st.Class("pair:" + prev + ">" + tag)
 		prev = tag
+	}
+	plain := 0
+	for i := range p.Steps {
+		if p.Steps[i].Kind != gen.KFunc {
+			plain++
+		}
+	}
+	if plain >= 6 {
+		st.Class("path:long(>=6 steps before the functions)")
 	}
 }
 
@@ -115,6 +255,9 @@ func checkC01(c *Case, st *Stats) string {
 		docText += fmt.Sprintf(" (shared subtrees, seed %d)", c.Ints[0])
 		st.Class("doc:shared-subtree")
 	}
+	if c.Doc != nil && c.Doc.Depth() >= 20 {
+		st.Class("doc:deep(>=20 levels)")
+	}
 	Journal(c.Check, c.Path, docText, flagString(c))
 	if len(c.Strs) > 0 {
 		// a rejected Parse right before: must leave nothing behind
@@ -124,6 +267,10 @@ func checkC01(c *Case, st *Stats) string {
 	}
 	lib := evalLibrary(c, doc, false)
 	st.Eval(1)
+	st.Class("api:" + pickAPI(c.Path, false).String())
+	if c.Twin != "" {
+		st.Class("preceded-by-twin-path")
+	}
 	if lib.parseErr != nil {
 		return fmt.Sprintf("generated path was rejected by Parse: %v", lib.parseErr)
 	}
@@ -162,6 +309,24 @@ func checkC01(c *Case, st *Stats) string {
 		}
 		if !reflect.DeepEqual(lib.got, want) {
 			return fmt.Sprintf("result differs from SPEC:\n   got  %s\n   want %s", JSONString(lib.got), JSONString(want))
+		}
+	}
+	if len(c.Docs) > 0 && lib.again != nil {
+		// the document object is given new content in place, then evaluated again
+		if transplantInPlace(doc, c.Docs[0].Build(c.UseNumber)) {
+			st.Class("edited-in-place-and-evaluated-again")
+			got2, err2 := lib.again(doc)
+			st.Eval(1)
+			res2 := spec.Eval(c.AST, c.Docs[0].Build(c.UseNumber), gen.PureFuncs{})
+			if !res2.Unspecified {
+				if len(res2.Nodes) == 0 {
+					if err2 == nil {
+						return fmt.Sprintf("after the document was given the content %s in place: SPEC selects nothing but the library returned %s", c.Docs[0].JSON(), JSONString(got2))
+					}
+				} else if err2 != nil || !reflect.DeepEqual(got2, res2.Values()) {
+					return fmt.Sprintf("after the document was given the content %s in place: got (%s, %v), SPEC selects %s", c.Docs[0].JSON(), JSONString(got2), err2, JSONString(res2.Values()))
+				}
+			}
 		}
 	}
 	// non-triviality
